@@ -171,6 +171,10 @@ func argVariants(t reflect.Type) []reflect.Value {
 			add(stk.And().Push(stk.Cond("", stk.Ne, "x")))
 			add([]any{"AND", "a"})
 			add([]any{"CONDITION", "k", stk.Eq, "v"}) // the record Condition.Unmarshal produces
+			for _, rn := range []string{"maps", "maps-twin", "cond-maps", "cond-maps-twin"} {
+				rv, _ := reflRecv(rn)
+				add(rv)
+			}
 			add(testLogger)
 		} else {
 			add(stk.Eq)
@@ -330,6 +334,20 @@ func reflRecv(name string) (recv any, isStack bool) {
 		tbl := []string{"<", ">", "[", "]", "{", "}"}
 		inner := stk.Or().Push("x", "y").SetEncap(tbl[1:2])
 		return mk(stk.And().SetEncap(tbl[:1]).SetEncap(tbl[2:4])).Push(inner, stk.Cond("k", stk.Eq, "v").SetEncap(tbl[4:5])), true
+	case "maps", "maps-twin":
+		// map leaves with several entries that are no primitives: the verdict of a
+		// comparison must not depend on the order the runtime walks them in
+		v := 0
+		if name == "maps-twin" {
+			v = 1
+		}
+		return mk(stk.And()).Push(mapsLeaf(0), stk.Or().Push(stk.Cond("m", stk.Eq, mapsLeaf(v)))), true
+	case "cond-maps", "cond-maps-twin":
+		v := 0
+		if name == "cond-maps-twin" {
+			v = 1
+		}
+		return stk.Cond("m", stk.Eq, mapsLeaf(v)), false
 	case "cond":
 		return stk.Cond("kw", stk.Ne, "val").SetID("c").SetEncap(`'`), false
 	case "cond-stack":
@@ -342,11 +360,20 @@ func reflRecv(name string) (recv any, isStack bool) {
 	panic("unknown receiver " + name)
 }
 
+// mapsLeaf: five entries, none a primitive; variant 1 differs in one element of one of them
+func mapsLeaf(variant int) map[string]any {
+	m := map[string]any{"a": []int{1, 2}, "b": []string{"x"}, "c": map[string]int{"k": 1}, "d": [2]int{3, 4}, "e": []int{5}}
+	if variant == 1 {
+		m["a"] = []int{1, 3}
+	}
+	return m
+}
+
 var otherHandleParent stk.Stack
 var reinitProblem string
 
-var reflStackRecvs = []string{"and", "or-sym", "not", "list", "basic", "fifo-mutex", "empty", "policies", "encap-window", "closures-ro", "failing-unmarshal"}
-var reflCondRecvs = []string{"cond", "cond-stack", "cond-init"}
+var reflStackRecvs = []string{"and", "or-sym", "not", "list", "basic", "fifo-mutex", "empty", "policies", "encap-window", "closures-ro", "failing-unmarshal", "maps"}
+var reflCondRecvs = []string{"cond", "cond-stack", "cond-init", "cond-maps"}
 
 func isZeroVal(v reflect.Value) bool {
 	if !v.IsValid() {
@@ -402,6 +429,33 @@ func runRefl(raw json.RawMessage) (res *Result, err error) {
 			c.SetErr(errors.New("stale"))
 			c.Free()
 			recvAny, isStack = c, false
+		case "freedcond-roexpr":
+			// a writable Condition whose expression is a read-only Stack (in every node
+			// form): only the Condition's OWN read-only flag keeps Free from working
+			mk := func() stk.Stack { s := stk.And().Push("x", "y"); s.SetReadOnly(true); return s }
+			a, b := aStack(mk()), sStack(mk())
+			roc := stk.Cond("in", stk.Eq, "v")
+			roc.SetReadOnly(true)
+			var pick *stk.Condition
+			for _, ex := range []any{mk(), aStack(mk()), &a, &b, roc, stk.Cond("mid", stk.Eq, mk())} {
+				c := stk.Cond("k", stk.Eq, ex)
+				c.Free()
+				if pick == nil || (!c.IsZero() && pick.IsZero()) {
+					cc := c
+					pick = &cc
+				}
+			}
+			recvAny, isStack = *pick, false
+		case "freed-ronested":
+			// a writable Stack holding read-only Stacks and Conditions
+			ro := stk.Or().Push("x")
+			ro.SetReadOnly(true)
+			roc := stk.Cond("in", stk.Eq, ro)
+			roc.SetReadOnly(true)
+			a := aStack(ro)
+			s := stk.And().Push(ro, roc, &a, "leaf")
+			s.Free()
+			recvAny = s
 		case "zcond":
 			recvAny, isStack = stk.Condition{}, false
 		case "freedcond":
@@ -513,6 +567,18 @@ func runRefl(raw json.RawMessage) (res *Result, err error) {
 					}
 					if a != b && c.Method != "Addr" {
 						problems = append(problems, fmt.Sprintf("%s: answers differ: %s vs %s", c.Method, a, b))
+					}
+				}
+				// a comparison is asked many more times: its verdict must not depend on
+				// anything that varies between calls (the walk order of a map, say)
+				if c.Method == "IsEqual" && len(out) == 1 {
+					first := fmt.Sprintf("%#v", out[0].Interface())
+					for k := 0; k < 16; k++ {
+						o, pk := invoke(m, mt, args)
+						if pk != "" || len(o) != 1 || fmt.Sprintf("%#v", o[0].Interface()) != first {
+							problems = append(problems, fmt.Sprintf("IsEqual: answer %d differs from the first (%s)", k+3, first))
+							break
+						}
 					}
 				}
 				// containers handed back must be fresh: scribble on the Unmarshal slice
@@ -801,14 +867,14 @@ func genZeroReflect(ctx *Ctx, emit func(any, string)) {
 	sm := methodNames(&stk.Stack{})
 	cm := methodNames(&stk.Condition{})
 	am := methodNames(&stk.Auxiliary{})
-	for _, rn := range []string{"zstack", "freed", "freedpol", "freedbusy", "other-handle"} {
+	for _, rn := range []string{"zstack", "freed", "freedpol", "freedbusy", "freed-ronested", "other-handle"} {
 		for _, m := range sm {
 			for v := 0; v < nVariants(stk.Stack{}, m); v++ {
 				emit(ReflInput{Mode: "zero", Recv: rn, Calls: []RCall{{m, v}}}, "exhaustive")
 			}
 		}
 	}
-	for _, rn := range []string{"zcond", "freedcond", "freedpolcond", "cond-init", "cond-reinit", "other-handle-cond"} {
+	for _, rn := range []string{"zcond", "freedcond", "freedpolcond", "freedcond-roexpr", "cond-init", "cond-reinit", "other-handle-cond"} {
 		for _, m := range cm {
 			for v := 0; v < nVariants(stk.Condition{}, m); v++ {
 				emit(ReflInput{Mode: "zero", Recv: rn, Calls: []RCall{{m, v}}}, "exhaustive")
